@@ -813,6 +813,7 @@ def run(ctx: Ctx) -> None:
     _memo.rule_isinstance_on_class(ctx, ['graphiq/circuit/circuit_dag.py', 'graphiq/utils/openqasm_lib.py', 'graphiq/circuit/ops.py'])
     _memo.rule_zip_truncation(ctx, ['graphiq/circuit/circuit_dag.py', 'graphiq/utils/openqasm_lib.py', 'graphiq/circuit/ops.py'])
     _memo.rule_search_fallthrough(ctx, ['graphiq/circuit/circuit_dag.py', 'graphiq/utils/openqasm_lib.py', 'graphiq/circuit/ops.py'])
+    _memo.rule_zip_pairing(ctx, ['graphiq/circuit/circuit_dag.py', 'graphiq/utils/openqasm_lib.py', 'graphiq/circuit/ops.py'])
     rule_regex_groups(ctx)
     rule_header_cover(ctx)
     rule_table_json(ctx)
